@@ -36,10 +36,19 @@ theorem construct_cpc (a : ACfg) (s : St) : (construct a s).cpc = s.cpc := by
   · simp only; split <;> rfl
   · rfl
 
+@[simp] theorem cpc_d2Return (s : St) : (d2Return s).cpc = s.cpc := by
+  unfold d2Return
+  split
+  · split
+    · split <;> rfl
+    · rfl
+    · rfl
+  · rfl
+
 theorem finishClose_out (a : ACfg) (s : St) (t : Sess.Tid) : SeqOut a s t (finishClose a s t) := by
   refine Or.inr ⟨?_, ?_⟩
-  · unfold finishClose; rw [innerStep_inner]
-  · unfold finishClose; rw [innerStep_cpc]
+  · unfold finishClose; rw [inner_d2Return, innerStep_inner]
+  · unfold finishClose; rw [cpc_d2Return, innerStep_cpc]
 
 theorem SeqOut.pre {a : ACfg} {s s0 s' : St} {t : Sess.Tid} (h0 : s0.inner = s.inner) (h : SeqOut a s0 t s') : SeqOut a s t s' := by
   unfold SeqOut at h ⊢
